@@ -184,6 +184,38 @@ int main(int argc, char **argv)
     }
     if (W == 32)
     {
+        // shapes around the integer constants of the library source (thresholds, block sizes; see lib/mine.py):
+        // row counts = the powers of two at and above each constant, column counts next to it
+        std::set<size_t> rset, cset;
+        for (u64 L : culist(args.kv, "lits"))
+        {
+            size_t p2 = 1;
+            while (p2 < L) p2 *= 2;
+            for (size_t q : {p2, 2 * p2}) if (q >= 32 && q <= (args.thorough() ? 65536u : 32768u)) rset.insert(q);
+            for (long long d : {-1LL, 0LL, 1LL}) { long long v = (long long)L + d; if (v > 17 && v <= 1100) cset.insert((size_t)v); }
+        }
+        for (int b = 0; b < NB; b++)
+        {
+#ifndef __AVX512__
+            if (b == B_AVX512) continue;
+#endif
+            for (size_t r : rset)
+                for (int t : {3, 6, 7, 11})
+                {
+                    if (r >= 8192 && (t == 3 || t == 11) && !args.thorough()) continue;
+                    cases.push_back({b, r, 1, 1, t, 0, (int)(r % 3)});
+                    if (r <= 16384) cases.push_back({b, r, 9, 1, t, 4, (int)((r + 1) % 3)});
+                }
+            for (size_t cc : cset)
+                for (int t : {1, 3})
+                {
+                    cases.push_back({b, 4, cc, 1, t, 0, (int)(cc % 3)});
+                    cases.push_back({b, 2, cc, 1, t, cc / 2 + 1, (int)((cc + 1) % 3)});
+                }
+        }
+    }
+    if (W == 32)
+    {
         // big shapes, odd team sizes (more and fewer threads than rows, chunk remainders)
         for (int b = 0; b < NB; b++)
         {
